@@ -89,6 +89,31 @@ FIXED = {
 }
 
 
+# positional parameter order of the command methods as published at the pinned commit (after `key`; media_player_command is keyword-only).
+# An argument supplied by position is a supplied argument: every third call of the sweeps passes its arguments positionally.
+POSITIONAL = {
+    "cover_command": ["position", "tilt", "stop"],
+    "fan_command": ["state", "speed", "speed_level", "oscillating", "direction", "preset_mode"],
+    "light_command": ["state", "brightness", "color_mode", "color_brightness", "rgb", "white", "color_temperature", "cold_white", "warm_white",
+                      "transition_length", "flash_length", "effect"],
+    "climate_command": ["mode", "target_temperature", "target_temperature_low", "target_temperature_high", "fan_mode", "swing_mode", "custom_fan_mode",
+                        "preset", "custom_preset", "target_humidity"],
+    "siren_command": ["state", "tone", "volume", "duration"],
+    "lock_command": ["command", "code"],
+    "valve_command": ["position", "stop"],
+    "alarm_control_panel_command": ["command", "code"],
+}
+
+
+def positional_args(method: str, required: dict[str, Any], supplied: dict[str, Any]) -> list[Any] | None:
+    order = POSITIONAL.get(method)
+    allv = {**required, **supplied}
+    if order is None or any(k not in order for k in allv):
+        return None
+    last = max((order.index(k) for k in allv), default=-1)
+    return [allv.get(name) for name in order[:last + 1]]
+
+
 def expected_request(method: str, key: int, supplied: dict[str, Any], required: dict[str, Any], apiv: tuple[int, int]) -> Any:
     """The table: arguments -> expected request message (built with the protobuf runtime, independent of client.py)."""
     from aioesphomeapi import api_pb2 as pb
@@ -221,13 +246,24 @@ def run_commands(ctx: Ctx, apiv: tuple[int, int], methods: list[str], framing: s
                         key = (idx * 2654435761) & 0xFFFFFFFF if idx % 5 == 0 else idx % 251
                         exp = expected_request(method, key, supplied, required, apiv)
                         n0 = len(s.dev.conn.received)
-                        if method == "media_player_command":
-                            s.cli.media_player_command(key, **supplied)
-                        elif required:
-                            getattr(s.cli, method)(key, *required.values(), **supplied)
-                        else:
-                            getattr(s.cli, method)(key, **supplied)
-                        judge(ctx, s, n0, method, exp, supplied, required, ("falsy", "typical", "extreme")[vc], apiv, framing)
+                        pos = positional_args(method, required, supplied) if idx % 3 == 0 else None
+                        try:
+                            if pos is not None:
+                                res.count("calls/arguments-passed-positionally")
+                                getattr(s.cli, method)(key, *pos)
+                            elif method == "media_player_command":
+                                s.cli.media_player_command(key, **supplied)
+                            elif required:
+                                getattr(s.cli, method)(key, *required.values(), **supplied)
+                            else:
+                                getattr(s.cli, method)(key, **supplied)
+                        except Exception as e:  # noqa: BLE001
+                            res.evaluations += 1
+                            res.violation(f"C15/{method}/call-raised/{type(e).__name__}", f"{method}(key, " + (", ".join(map(repr, pos)) if pos is not None else
+                                          ", ".join(f"{k}={v!r:.30}" for k, v in {**required, **supplied}.items())) + f") on a live session raised {e!r}",
+                                          {"method": method, "supplied": {k: repr(v) for k, v in supplied.items()}, "positional": pos is not None, "api_version": list(apiv)})
+                            continue
+                        judge(ctx, s, n0, method, exp, supplied, required, ("falsy", "typical", "extreme")[vc] + ("/positional" if pos is not None else ""), apiv, framing)
         if sim.harness_errors:
             res.inconclusive.append("harness: " + sim.harness_errors[0][-300:])
 
